@@ -99,7 +99,7 @@ func genUUs(t *rapid.T, o genOpts, create bool) []UU {
 				u.Conts = append(u.Conts, c)
 			}
 			if o.jumbo && rapid.IntRange(0, 7).Draw(t, "jumbo") == 0 {
-				u.Jumbo = rapid.SampledFrom([]int{100, 300, 1000, 2000, 3000}).Draw(t, "jumboN")
+				u.Jumbo = rapid.SampledFrom([]int{100, 300, 1000, 2000, 3000, 4000}).Draw(t, "jumboN")
 			}
 		}
 		out = append(out, u)
